@@ -15,6 +15,7 @@ def tslOfJson (j : Json) : Except String Tsl := do
 
 def layoutOfJson (j : Json) : Except String Layout := do
   if j.isNull then return .none
+  if (j.getObjVal? "other").isOk then return .other
   match j.getObjVal? "tsl" with
   | .ok t => return .tsl (← tslOfJson t)
   | .error _ =>
@@ -34,7 +35,7 @@ def jTsl (t : Tsl) : Json := Json.mkObj [("ts", jList (jList jStride) t.ts), ("o
 
 def errName : Err → String
   | .noMatch => "noMatch" | .assertion => "AssertionError" | .indexError => "IndexError"
-  | .structure => "structure" | .fuel => "fuel"
+  | .structure => "structure" | .fuel => "fuel" | .notImplemented => "NotImplementedError"
 
 def jErr (e : Err) : Json := Json.mkObj [("error", Json.str (errName e))]
 
@@ -61,7 +62,10 @@ def lower : Handler := fun j => do
   match simpleCopy src dst rs rd with
   | .ok p => return Json.mkObj [("path", Json.str "simple"), ("prog", jProg p)]
   | .error .noMatch =>
-    match transformDma src dst rs rd with
+    let byValue := match j.getObjVal? "byValue" with
+      | .ok (Json.bool b) => b
+      | _ => false
+    match transformDma byValue src dst rs rd with
     | .ok l =>
       return Json.mkObj [("path", Json.str "transform"), ("prog", jProg l.prog), ("tS", jTsl l.tS), ("tD", jTsl l.tD),
         ("lcb", jList jStride l.lcb), ("entries", jList (jList jEntry) l.nested),
